@@ -365,6 +365,9 @@ fn build(tier: Tier) -> Vec<Scenario> {
             out.push(job_scenario(size, slide, scripts, if tier == Tier::Quick { 1 } else { 2 }));
         }
     }
+    if tier == Tier::Quick {
+        crate::props::common::deepen(&mut out, &|n| n.starts_with("C13/job/"));
+    }
     out
 }
 
